@@ -19,6 +19,18 @@ CHECKS = {
  "C18": ("venum", "exhaustive small-scope enumeration of SVCB parameter lists on the real parser/marshaller against an RFC 9460 decoder written from the RFC and miekg's unpacker",
          "Every ordered list of up to 4 (quick) / 5 (thorough) distinct keys of the seven supported keys times every value of a 38-value per-key alphabet (boundary ports, address forms, alpn lengths 0/1/255/256, ech base64 forms, mandatory variants), repeated-key / unknown-key / structural lists, oversize values, and whole B/H lines through the real codec: accepted lists must decode to exactly the declared list with two independent decoders, statement-level rejections must be refused, ToText->FromText must reproduce the wire bytes; panics are violations.",
          "only values of the alphabet and lists within the bound; ech treated as opaque bytes", "DESIGN.md §3 C18"),
+ "C05": ("vsched", "exhaustive preemption-bounded interleaving exploration (controlled scheduler, stateless DFS, state-signature pruning) of the real reload and query paths over generation-stamped databases",
+         "For every single-reload script and the path-following two-reload scripts (quick; every script of length <=2 and a second query thread in thorough) over {full ok, partial with new content, partial without change, missing path, missing validation key on a new / on the same backend, slow open racing the timeout}, and both reload styles (new backend per reload as CDB; in-place catch-up as RocksDB), every interleaving within 2 (quick) / 3 (thorough) preemptions of the reload thread with the query thread(s) is executed on the real instrumented FBDNSDB/db.DB/cdbdriver code over real CDB files behind a proxy backend whose every call is a scheduling point; each response must come from one generation, never older than the last reload that returned before the query started, never from a failed reload, never going backwards, and partial reloads must follow the path last switched to.",
+         "RocksDB-style in-place catch-up is modelled by a proxy switching which real CDB generation file it reads (real CatchWithPrimary is not executed); the instrumenter's rewrite is trusted; schedules beyond the preemption bound and scripts beyond length 2 are outside the claim", "DESIGN.md §3 C05"),
+ "C12": ("vsched", "exhaustive enumeration of query/reload histories against a cache-less twin handler + preemption-bounded interleaving exploration of query vs reload/purge",
+         "Part 1: every history of length <=3 (quick) / <=4 (thorough) over 17 queries built to collide in the cache key (locations, types, classes incl. the decimal-concatenation collision, EDNS/ECS, case, every response class) and full/partial reloads, replayed on a fresh pair of real handlers (cache on/off): responses must be equal at every step. Part 2: every interleaving within 2 / 3 preemptions of queries with reloads (swap + purge) on the instrumented handler with the cache enabled: a query started after a reload returned must be served the new generation.",
+         "weighted answers excluded by construction; entry expiry (1000 s) not reached; keys outside the alphabet's collisions not covered", "DESIGN.md §3 C12"),
+ "C03": ("venum", "exhaustive small-scope enumeration of subnet sets and map declarations against a brute-force longest-prefix oracle, on the real rearranger, compilers and location lookups",
+         "Level A: every set of <=3 (quick) / <=4 (thorough) subnets from a 72-prefix alphabet (two binary prefix trees straddling byte boundaries, default routes, address-space edges) x 2 locations through the real codec/rearranger, interpreted by predecessor search, for 270 boundary clients. Level B: sets of <=2 compiled to CDB (combined and per-family prefix sets), RocksDB v1 and v2 in several map surroundings, looked up through the real ResolverLocation/EcsLocation. Level C: all <=3 subsets of 16 map declarations x query names: exact map first, else nearest enclosing wildcard map.",
+         "subnets outside the alphabet and larger sets are outside the claim", "DESIGN.md §3 C03"),
+ "C09": ("venum", "exhaustive enumeration of the per-line option lattice and of small data files on the real text codec, preprocessor and RocksDB compiler",
+         "Part 1: for all 17 line types the full lattice of optional fields (absent/default/other), both separators, wildcard owners, locations, address forms, escaped bytes and numeric edges, under both key layouts and codec modes: parse, print, re-parse must give the same keys/values and the same text. Part 2: every data file of <=2 (quick) / <=3 (thorough) lines over a 25-line alphabet of % / Z / ordinary lines compiled to RocksDB v1/v2 before and after the real preprocessor: identical dumps.",
+         "values outside the variant lists and larger files are outside the claim", "DESIGN.md §3 C09"),
 }
 NOT_YET = "check not built yet in this round (work in progress; see DESIGN.md §9 for the construction order)"
 NOT_APPLICABLE = {}
